@@ -120,6 +120,11 @@ def _helper_src():
     out.append("(defn late-fut* [m thunk] (let [gate (promise) f (with-bindings m (future (deref gate) (thunk)))] "
                "(deliver gate true) (deref f)))")
     out.append("(defn bf* [thunk] (bound-fn [] (thunk)))")
+    # a bound fn made in one binding context and SUBMITTED AS IT IS from another: the worker must see the
+    # submission site's bindings too (underneath the ones the bound fn was made with)
+    out.append("(defn refut-call* [m bf] (with-bindings m (deref (future-call bf))))")
+    out.append("(defn refut-bf* [m bf] (with-bindings m (bound-fn* bf)))")
+    names += ["refut-call*", "refut-bf*"]
     out.append("(defn pmap* [thunk n] (doall (pmap (fn [_i] (thunk)) (range n))))")
     out.append("(defn probe* [id] (probe! id (pstart!) *a* *b* *c*))")
     names += ["wb*", "pyb*", "try*", "throw*", "fut*", "late-fut*", "bf*", "pmap*", "probe*"]
@@ -179,6 +184,12 @@ class Interp:
             _fns["deref"](fut)
         elif t == "latefut":
             _fns["late-fut*"](self._map(n[1], None), lambda: self.block(n[2]))
+        elif t == "refut":
+            bf = _fns["bf*"](lambda: self.block(n[2]))                # made here (context A)
+            if n[3] == "future-call":
+                _fns["refut-call*"](self._map(n[1], None), bf)         # handed over as it is inside context B
+            else:
+                _run_thread(_fns["refut-bf*"](self._map(n[1], None), bf))
         elif t == "boundfn":
             _run_thread(_fns["bf*"](lambda: self.block(n[1])))
         elif t == "bflocal":
@@ -335,6 +346,14 @@ class _Gen:
                 out.append(["probe", self.nid()])
             elif r < 0.87 and ctx["fdepth"] < 2 and depth < 4:
                 ctx2 = dict(ctx, fdepth=ctx["fdepth"] + 1, child=True)
+                if rng.random() < 0.3:
+                    how = "bound-fn*" if ctx.get("in_pool") else rng.choice(["future-call", "bound-fn*"])
+                    vs = rng.sample(M.VARS, rng.choice([1, 2]))
+                    ctx3 = dict(ctx2, fdepth=2, in_pool=True) if how == "future-call" else ctx2
+                    out.append(["refut", [[v, self.nval()] for v in vs],
+                                [["probe", self.nid()]] + self.block(depth + 2, set(bound) | set(vs), ctx3, budget), how])
+                    out.append(["probe", self.nid()])
+                    continue
                 out.append(["boundfn", [["probe", self.nid()]] + self.block(depth + 1, set(bound), ctx2, budget)])
             elif r < 0.92 and not ctx.get("in_pool") and depth < 4:
                 ctx2 = dict(ctx, fdepth=2, child=True, in_pool=True)
@@ -368,8 +387,12 @@ class _Gen:
     def binding(self, depth, bound, ctx, budget, fault):
         rng = self.rng
         vs = rng.sample(M.VARS, rng.choice([1, 1, 2, 3]))
+        if fault is None and rng.random() < 0.06:
+            vs = []                      # a frame that binds nothing must still be pushed and popped as one frame
         pairs = [[v, self.nval()] for v in vs]
         form = rng.choice(["binding", "binding", "with-bindings", "py-bindings"])
+        if not vs:
+            form = rng.choice(["with-bindings", "py-bindings"])      # the binding macro rejects an empty vector
         if fault is None:
             body = [["probe", self.nid()]] + self.block(depth + 1, bound | set(vs), ctx, budget)
             return ["binding", form, pairs, body, None]
@@ -432,7 +455,7 @@ def _shrink_nodes(nodes):
     for i, n in enumerate(nodes):
         t = n[0]
         bodies = {"binding": [3], "try": [2], "future": [1, 2], "boundfn": [1], "pmap": [2],
-                  "bflocal": [1, 2], "latefut": [2], "redefs": [3]}.get(t, [])
+                  "bflocal": [1, 2], "latefut": [2], "redefs": [3], "refut": [2]}.get(t, [])
         for bi in bodies:
             for sb in _shrink_nodes(n[bi]):
                 m = copy.deepcopy(n)
@@ -526,7 +549,7 @@ def _count_faults(nodes, acc):
         elif t in ("boundfn",):
             acc["children"] = acc.get("children", 0) + 1
             _count_faults(n[1], acc)
-        elif t == "latefut":
+        elif t in ("latefut", "refut"):
             acc["children"] = acc.get("children", 0) + 1
             _count_faults(n[2], acc)
         elif t == "bflocal":
